@@ -171,6 +171,32 @@ Proof.
   unfold written_types in S. rewrite H in S. exists l. split; [apply (emits_ext _ _ _ A E) | exact S].
 Qed.
 
+(* the serialization_failure message itself: stamped at some position of the current
+   context, carrying the rendering of the message that could not be serialized *)
+Theorem C13_failure_message c s m sr e :
+  serialize sr m = Err e -> any_added s = true -> fget K_mtype (globals s) = None ->
+  exists l1 u lv rs,
+    ext (l1 ++ fupdate (stamp u lv (VTypeName T_serialization_failure)
+                          (fset K_message (render_of m) [])) (globals s) :: rs)
+        s (logger_write cfg c s m (Some sr)) /\
+    shape (extractor_tb cfg e ++ [Some (VTypeName T_traceback)]) l1 /\ Forall rep_msg rs.
+Proof.
+  intros H A G. rewrite (logger_write_failure_contained c s m sr e H). cbv zeta.
+  destruct (write_traceback_shape cfg c s e G) as (l1 & H1 & S1).
+  set (s1 := write_traceback cfg c s e) in *.
+  match goal with |- context [stamp_here s1 c ?mt ?fs] =>
+    pose proof (stamp_here_emits s1 c mt fs) as (H2 & u & lv & Hm);
+    destruct (stamp_here s1 c mt fs) as [s3 fm] end.
+  cbn [fst snd] in *. subst fm.
+  match goal with |- context [send c s3 ?fm] =>
+    destruct (send_emits c s3 fm) as (rs & H3 & _ & _ & P) end.
+  assert (G3 : globals s3 = globals s)
+    by now rewrite (emits_globals _ _ _ H2), (emits_globals _ _ _ H1).
+  rewrite G3 in H3, P. exists l1, u, lv, rs. split; [|split; [exact S1 | exact (P G)]].
+  apply (emits_ext _ _ _ A). eapply emits_trans; [exact H1|].
+  change (?x :: rs) with ([] ++ x :: rs). eapply emits_trans; eassumption.
+Qed.
+
 Lemma extractor_tb_cases e :
   extractor_tb cfg e = [] \/ extractor_tb cfg e = [Some (VTypeName T_traceback)].
 Proof. unfold extractor_tb. destruct (first_registered _ _) as [[|]|]; auto. Qed.
@@ -264,3 +290,12 @@ Example logger_write_caller_untouched_ex :
   map d_log (dests (logger_write ex_cfg 0 s1 ex_typed None)) =
     [[fset 14%positive (VInt 1) ex_typed]; [fset 14%positive (VInt 1) ex_typed]].
 Proof. split; reflexivity. Qed.
+
+Example C13_failure_message_ex :
+  exists d tb r1 r2 sf r3,
+    nth_error (dests (logger_write ex_cfg 0 ex_s3 ex_bad (Some ex_sr))) 0 = Some d /\
+    d_log d = [tb; r1; r2; sf; r3] /\
+    fget K_mtype sf = Some (VTypeName T_serialization_failure) /\
+    fget K_message sf = Some (render_of ex_bad) /\
+    fget K_exception tb = Some (VClassName (e_cls ex_exA)) /\ fget K_reason tb = Some (safe_str ex_exA).
+Proof. do 6 eexists. split; [vm_compute; reflexivity|]. split; [reflexivity|]. repeat split. Qed.
